@@ -453,6 +453,8 @@ func c08RandAnn(rng *rand.Rand, maxPeers int) c08A {
 func c08Stream(o *Out, rng *rand.Rand, n int) {
 	log.SetOutput(io.Discard)
 	id := func(s string) []byte { return []byte((s + "--------------------")[:20]) }
+	// ---- concurrent writers (each response depends only on its own request)
+	c08Concurrent(o, rng, n/200+3, 32)
 	// ---- corpus
 	for _, c := range []bool{true, false} {
 		c08Ann(o, "corpus-announce", c08A{Compact: c})
